@@ -917,6 +917,117 @@ async fn cross_connection(out: &mut Out, rng: &mut Rng, thorough: bool) {
     }
 }
 
+/// the upstream proxy's success reply and the first bytes of the origin (a banner: the origin speaks first) arrive in ONE
+/// segment at the http / socks connector: the banner must reach the client
+async fn glued_reply(out: &mut Out) {
+    const BANNER: &[u8] = b"220 mail.example.org ESMTP ready\r\n";
+    // fake http upstream
+    let hl = TcpListener::bind("127.0.0.1:0").await.unwrap();
+    let hport = hl.local_addr().unwrap().port();
+    tokio::spawn(async move {
+        while let Ok((mut s, _)) = hl.accept().await {
+            tokio::spawn(async move {
+                let mut head = vec![];
+                let mut b = [0u8; 1];
+                while !head.ends_with(b"\r\n\r\n") {
+                    match s.read(&mut b).await {
+                        Ok(1) => head.push(b[0]),
+                        _ => return,
+                    }
+                }
+                let mut reply = b"HTTP/1.1 200 Connection established\r\n\r\n".to_vec();
+                reply.extend_from_slice(BANNER);
+                let _ = s.write_all(&reply).await;
+                let mut buf = [0u8; 4096];
+                while let Ok(n) = s.read(&mut buf).await {
+                    if n == 0 || s.write_all(&buf[..n]).await.is_err() {
+                        break;
+                    }
+                }
+            });
+        }
+    });
+    // fake SOCKS5 upstream
+    let sl = TcpListener::bind("127.0.0.1:0").await.unwrap();
+    let sport = sl.local_addr().unwrap().port();
+    tokio::spawn(async move {
+        while let Ok((mut s, _)) = sl.accept().await {
+            tokio::spawn(async move {
+                let mut h = [0u8; 2];
+                if s.read_exact(&mut h).await.is_err() {
+                    return;
+                }
+                let mut methods = vec![0u8; h[1] as usize];
+                let _ = s.read_exact(&mut methods).await;
+                let _ = s.write_all(&[5, 0]).await;
+                let mut r = [0u8; 4];
+                if s.read_exact(&mut r).await.is_err() {
+                    return;
+                }
+                let rest = match r[3] {
+                    1 => 6,
+                    4 => 18,
+                    _ => {
+                        let mut l = [0u8; 1];
+                        let _ = s.read_exact(&mut l).await;
+                        l[0] as usize + 2
+                    }
+                };
+                let mut a = vec![0u8; rest];
+                let _ = s.read_exact(&mut a).await;
+                let mut reply = vec![5u8, 0, 0, 1, 0, 0, 0, 0, 0, 0];
+                reply.extend_from_slice(BANNER);
+                let _ = s.write_all(&reply).await;
+                let mut buf = [0u8; 4096];
+                while let Ok(n) = s.read(&mut buf).await {
+                    if n == 0 || s.write_all(&buf[..n]).await.is_err() {
+                        break;
+                    }
+                }
+            });
+        }
+    });
+    for splice in [false, true] {
+        let mut w = world(&[], 20);
+        {
+            let st = Arc::get_mut(&mut w.state).unwrap();
+            st.io_params = crate::config::IoParams { buffer_size: 65536, use_splice: splice };
+            for (name, yaml) in [("hup", format!("name: hup\ntype: http\nserver: 127.0.0.1\nport: {}", hport)), ("sup", format!("name: sup\ntype: socks\nserver: 127.0.0.1\nport: {}", sport))] {
+                let mut c = crate::connectors::from_value(&serde_yaml::from_str(&yaml).unwrap()).unwrap();
+                c.init().await.unwrap();
+                st.connectors.insert(name.into(), c.into());
+            }
+        }
+        set_rules(&w, &[("hup".into(), Some("request.target.port == 1".into())), ("sup".into(), None)]).await.unwrap();
+        let http = start_listener(&w, "name: http\ntype: http").await;
+        tokio::time::sleep(std::time::Duration::from_millis(50)).await;
+        for (kind, tport) in [("http", 1u16), ("socks", 2)] {
+            let res: Option<(Vec<u8>, bool)> = async {
+                let mut c = TcpStream::connect(("127.0.0.1", http)).await.ok()?;
+                c.write_all(format!("CONNECT origin.example:{} HTTP/1.1\r\nHost: x\r\n\r\n", tport).as_bytes()).await.ok()?;
+                let mut r = vec![0u8; 39];
+                tokio::time::timeout(std::time::Duration::from_secs(3), c.read_exact(&mut r)).await.ok()?.ok()?;
+                let mut banner = vec![0u8; BANNER.len()];
+                let got = tokio::time::timeout(std::time::Duration::from_secs(2), c.read_exact(&mut banner)).await;
+                if !matches!(got, Ok(Ok(_))) {
+                    return Some((vec![], false));
+                }
+                c.write_all(b"ping").await.ok()?;
+                let mut e = [0u8; 4];
+                let echoed = matches!(tokio::time::timeout(std::time::Duration::from_secs(2), c.read_exact(&mut e)).await, Ok(Ok(_))) && &e == b"ping";
+                Some((banner, echoed))
+            }
+            .await;
+            let ok = matches!(&res, Some((b, true)) if b == BANNER);
+            out.case(&format!("GB {} {}", kind, splice as u8), if ok { "ok" } else { "bad" });
+            out.stat("glued_reply");
+            if !ok {
+                out.oracle_fail("bytes-lost", &format!("{} connector (splice={}): the origin's first bytes arrived in the same segment as the upstream's success reply and did not reach the client: {:?}", kind, splice, res.map(|x| (String::from_utf8_lossy(&x.0).to_string(), x.1))));
+            }
+        }
+    }
+}
+
 pub async fn run_c01(out: &mut Out) {
     let mut rng = Rng(out.seed() ^ 0xC01);
     let thorough = out.tier_thorough();
@@ -926,6 +1037,7 @@ pub async fn run_c01(out: &mut Out) {
     chain_cases(out, &mut rng, thorough).await;
     secure_pairings(out, &mut rng, thorough).await;
     cross_connection(out, &mut rng, thorough).await;
+    glued_reply(out).await;
 }
 
 pub async fn run_c04(out: &mut Out) {
